@@ -172,7 +172,15 @@ def explore_scanner(cx, res, kind, method, result_fn="as_str", exits=()):
                 st.pc.append(c)
                 st.heap["sr"] = Agg("struct", "SliceRead", [sr.fields[0], Int(new, "usize")])
             st.notes["scratch"] = st.notes.get("scratch", ()) + (("escape", nm),)
-            return S.mk_result(engine, is_err, Blob("ret:" + nm), Opaque("Error", "from:" + nm, {"kind": "callee"}))
+            okv = Blob("ret:" + nm)
+            if nm == "parse_elisp_escape" and "ElispEscape" in engine.enums:
+                kd = z3.BitVec("x_%s_kind_%d" % (nm, next(engine.fresh)), 64)
+                c = z3.ULT(kd, z3.BitVecVal(len(engine.enums["ElispEscape"]), 64))
+                engine.solver.add(c)
+                st.pc.append(c)
+                okv = EnumV("ElispEscape", kd, {})
+                st.events.append(("escape_kind", kd, is_err))
+            return S.mk_result(engine, is_err, okv, Opaque("Error", "from:" + nm, {"kind": "callee"}))
         return (_re.compile(r"^%s(::<.*>)?$" % _re.escape(nm)), h)
     eng.stubs = [mk_exit(n) for n in exits] + scanner_stubs(cx, eng, rd, kind) + S.SCRATCH_STUBS + S.COMBINATOR_STUBS + S.CORE_STUBS
     line = {"slice": "read.rs:3", "io": "read.rs:1"}[kind]
@@ -204,7 +212,8 @@ def explore_scanner(cx, res, kind, method, result_fn="as_str", exits=()):
             st.notes["idx"] = idx0
         st.heap["scratchv"] = Opaque("Vec<u8>", "scratch", {})
         fr.locals[fn.args[1]] = Ref(("H", "scratchv"))
-        fr.locals[fn.args[2]] = Opaque("fnitem", result_fn, {})
+        if len(fn.args) > 2:
+            fr.locals[fn.args[2]] = Opaque("fnitem", result_fn, {})
         return cons
 
     def cursor(st):
@@ -460,6 +469,95 @@ def claim_string_scanners(cx, res, kf):
             res.vacuity.append(("%s string scanner reaches %s" % (kind, k), n > 0))
 
 
+def claim_elisp_string_scanners(cx, res, kf):
+    """Emacs string scanning of IoRead (parse_elisp_str) and SliceRead (parse_elisp_str_bytes) against ONE specification:
+    the three classification flags start false; a raw byte > 127 sets `non-ASCII` (and nothing else does), an escape sets
+    `unibyte` / `multibyte` exactly as the escape decoder reports; the closing quote yields a byte vector iff
+    unibyte and neither multibyte nor non-ASCII, otherwise a validated string."""
+    from . import confirm as CF
+    onm = CF.confirm(("strings",), res)
+    EE = cx.enums["ElispEscape"]
+    ES = cx.enums.get("ElispStr")
+    FLAGS = ("seen_ub_escape", "seen_mb_escape", "seen_non_ascii")
+    for kind, method in (("io", "parse_elisp_str"), ("slice", "parse_elisp_str_bytes")):
+        eng, rd, fn, info, terms = explore_scanner(cx, res, kind, method, "as_str", exits=["parse_elisp_escape"])
+        cursor = info["cursor"]
+        fl = {n: fn.local_by_debug(n) for n in FLAGS}
+        if any(v is None for v in fl.values()):
+            res.violations.append({"what": "%s Emacs string scanner: classification flags not found" % kind, "replayed": None})
+            continue
+        base_done = set()
+        seen = {"plain": 0, "escape": 0, "bytes": 0, "string": 0, "eof": 0}
+        for t in terms:
+            st = t.state
+            pc = list(st.pc)
+            if t.kind == "PANIC":
+                res.must_be_unsat(pc, "%s Emacs string scanner: reachable panic `%s`" % (kind, t.info.get("msg")), onm)
+                continue
+            if not st.notes["in"]:
+                continue
+            K.base_case(res, st, 0, base_done,
+                        lambda a: z3.And(*[z3.Not(a["locals"][fl[n]].e) for n in FLAGS]) if all(fl[n] in a["locals"] for n in FLAGS) else None,
+                        "%s Emacs string scanner: a classification flag is already set before the first byte" % kind, onm)
+            hb, rec = st.notes["in"][-1]
+            idx = rec["idx"]
+            b = rd.at(idx)
+            eof = z3.UGE(idx, rd.len)
+            ub, mb, na = (rec["locals"][fl[n]].e for n in FLAGS)
+            evs = st.events[st.notes.get("events_at_header", 0):]
+            esc = [e for e in evs if e[0] == "escape_kind"]
+            fr = st.frames[-1] if st.frames else None
+            if t.kind == "LOOP_BACK":
+                ub2, mb2, na2 = (fr.locals[fl[n]].e for n in FLAGS)
+                if esc:
+                    seen["escape"] += 1
+                    kd, eerr = esc[0][1], esc[0][2]
+                    want = z3.And(z3.Not(eof), b == b8(ord("\\")), z3.Not(eerr),
+                                  ub2 == z3.Or(ub, kd == EE.index("Unibyte")), mb2 == z3.Or(mb, kd == EE.index("Multibyte")), na2 == na)
+                    res.must_be_unsat(pc + [z3.Not(want)], "%s Emacs string scanner: flags after an escape do not follow the escape decoder's "
+                                      "classification (unibyte / multibyte / neither)" % kind, onm)
+                else:
+                    seen["plain"] += 1
+                    # a raw byte: kept, one byte consumed, only the non-ASCII flag may change and exactly for bytes > 127
+                    r, _ = res.solve(pc + [cursor(st) == idx + 1])
+                    if r == z3.sat:
+                        want = z3.And(z3.Not(eof), b != b8(ord('"')), b != b8(ord("\\")), cursor(st) == idx + 1,
+                                      ub2 == ub, mb2 == mb, na2 == z3.Or(na, z3.UGT(b, b8(127))))
+                        res.must_be_unsat(pc + [z3.Not(want)], "%s Emacs string scanner: a raw byte changes the classification otherwise than "
+                                          "`non-ASCII iff byte > 127`, or a quote / backslash is skipped" % kind, onm)
+                    else:
+                        # (slice reader) back to the outer loop without consuming: only after its inner scan stopped at a special byte
+                        res.must_be_unsat(pc + [z3.Not(z3.And(cursor(st) == idx, ub2 == ub, mb2 == mb, na2 == na))],
+                                          "%s Emacs string scanner: flags change without consuming a byte" % kind, onm)
+                continue
+            if t.kind != "RETURN":
+                continue
+            kind_, payload = K.classify_return(eng, t)
+            if kind_ == "err":
+                ci = K.err_code_index(eng, payload)
+                if ci is not None and K.code_name(eng, ci) == "EofWhileParsingString":
+                    seen["eof"] += 1
+                    res.must_be_unsat(pc + [z3.Not(eof)], "%s Emacs string scanner reports EOF inside the input" % kind, onm)
+                continue
+            if kind_ in ("ok", "sym"):
+                v = payload if kind_ == "ok" else (payload.variants.get(0, [None])[0])
+                extra = [] if kind_ == "ok" else [payload.discr == 0]
+                if not isinstance(v, EnumV) or ES is None:
+                    res.violations.append({"what": "%s Emacs string scanner: result is not an ElispStr: %r" % (kind, v), "replayed": None})
+                    continue
+                d = K.concrete(v.discr)
+                is_bytes = ES[d] == "Unibyte"
+                seen["bytes" if is_bytes else "string"] += 1
+                want_bytes = z3.And(ub, z3.Not(z3.Or(mb, na)))
+                res.must_be_unsat(pc + extra + [z3.Not(z3.And(z3.Not(eof), b == b8(ord('"')), want_bytes == z3.BoolVal(is_bytes)))],
+                                  "%s Emacs string scanner: byte vector / string decision is not `unibyte escape seen and neither a multibyte "
+                                  "escape nor a raw non-ASCII byte`" % kind, onm)
+                if not is_bytes and not any(e[0] == "from_utf8" for e in st.events):
+                    res.violations.append({"what": "%s Emacs string scanner returns a string without UTF-8 validation" % kind, "replayed": None})
+        for k, n in seen.items():
+            res.vacuity.append(("%s Emacs string scanner reaches %s" % (kind, k), n > 0))
+
+
 def claim_str_unchecked(cx, res, kf):
     """C17 for &str input: StrRead hands the scanned bytes to from_utf8_unchecked. Sound because (a) the input is valid
     UTF-8, (b) SliceRead cuts ranges only at `"` / `\\` / symbol terminators (ASCII: c07-style range claims above), and
@@ -516,6 +614,13 @@ CLAIMS = [
           "backslash is kept, ranges copied by the slice version run exactly from `start` to that byte, a backslash enters the "
           "escape decoder, the closing quote ends the string and is consumed, end of input is an EOF error, no index panic",
           "strings of any length (loop cut), arbitrary bytes, arbitrary escape-decoder behaviour", configs=("fast",), also=("C17", "C03", "C01")),
+    Claim("c06_elisp_string_scanners", "C06", "quick", claim_elisp_string_scanners,
+          "the stream and the byte-slice Emacs string scanner against one specification: classification flags start false, a raw "
+          "byte > 127 (and only that) marks the string non-ASCII, escapes mark it unibyte / multibyte as the decoder reports, the "
+          "closing quote yields a byte vector iff unibyte and neither multibyte nor non-ASCII, else a UTF-8-validated string; "
+          "EOF error only at the end of input; no panic",
+          "strings of any length (loop cut, base case), arbitrary bytes, arbitrary escape-decoder results", configs=("fast",),
+          also=("C02", "C17", "C03", "C13")),
     Claim("c17_unchecked_sites", "C17", "quick", claim_str_unchecked,
           "from_utf8_unchecked in the reader occurs only in StrRead's two closures (strings, symbols) applied to the scanner "
           "output, and StrRead's Emacs string path validates",
